@@ -568,7 +568,7 @@ def _slot_creation(R, rid):
     R.rule(rid, "a group's value / aggregator slot is created only with the default its own aggregate supplies (the accessor inserts the "
                 "result of the default closure, or an empty inner container): no padding / filler values")
     INS = re.compile(r"^(std::collections::hash::map::HashMap|alloc::collections::btree::map::BTreeMap)::insert$|^alloc::vec::Vec::(push|insert|resize|resize_with|extend_from_slice)$|"
-                     r"::entry::(Vacant)?Entry::(or_insert|or_insert_with|insert|insert_entry)$|::Entry::(or_insert|or_insert_with)$|^alloc::vec::from_elem$")
+                     r"(Vacant|Occupied)?Entry::(or_insert|or_insert_with|or_insert_with_key|or_default|insert|insert_entry)$|^alloc::vec::from_elem$")
     n = 0
     for nm in ("get_group", "get_group_value", "get_group_aggregator"):
         g0 = P.fn(ENGINE + nm)
@@ -580,6 +580,15 @@ def _slot_creation(R, rid):
                 continue
             val = c.args[-1]
             ty = val.get("ty") or ""
+            if short(c.name).endswith("::or_default"):
+                # entry(key).or_default(): the inserted value is Default of the entry's value type - fine for an (empty) inner container
+                n += 1
+                if re.search(r"(HashMap|BTreeMap|Vec|HashSet|BTreeSet)<[^<>]*(<[^<>]*>)?[^<>]*>\s*>?$", ty) or re.search(r", (std::collections::hash::map::HashMap|alloc::collections::btree::map::BTreeMap|alloc::vec::Vec)<", ty):
+                    R.ok(rid, "%s|or_default" % nm, "inserts an empty inner container", c.loc(), nontrivial=False)
+                else:
+                    R.violation(rid, "%s|filler" % nm, "%s creates a slot with Default::default() of %s instead of the aggregate's own default"
+                                % (g0.path, ty[:80]), [c.loc()])
+                continue
             if val.get("k") == "const" or ty in ("usize",):
                 continue
             n += 1
